@@ -203,7 +203,7 @@ func runLoadScenario(sc ldScenario) ldResult {
 		execN.Add(1)
 		// the first task handed over by a Refresh caller is its reload: a managed goroutine with a stable name ("x" + caller),
 		// parked at the virtual point "start" until scheduled - the step "start" of a refresher in LoadRace.tla
-		if caller := s.Name(); strings.HasPrefix(caller, "r") {
+		if caller := s.Name(); strings.HasPrefix(caller, "r") || strings.HasPrefix(caller, "q") {
 			if _, dup := namedOnce.LoadOrStore(caller, true); !dup {
 				s.Go("x"+caller, func() {
 					defer execN.Add(-1)
@@ -351,6 +351,15 @@ func runLoadScenario(sc ldScenario) ldResult {
 			note(ldEvent{T: "call", Op: "Get", K: 1})
 			v, err := c.Get(ctx, 1, loader)
 			note(ldEvent{T: "ret", Op: "Get", K: 1, V: v, Err: errClassLd(err)})
+			if err == nil {
+				// what the cache holds right after the call returned a loaded (or cached) value
+				pv, ok := c.GetIfPresent(1)
+				e := ""
+				if !ok {
+					e = "miss"
+				}
+				note(ldEvent{T: "post", Op: "Get", K: 1, V: pv, Err: e})
+			}
 		}))
 	}
 	for i := 1; i <= sc.Bulk; i++ {
@@ -383,6 +392,14 @@ func runLoadScenario(sc ldScenario) ldResult {
 			select {
 			case r := <-ch:
 				note(ldEvent{T: "ret", Op: "Refresh", K: 1, V: r.Value, Err: errClassLd(r.Err)})
+				if r.Err == nil {
+					pv, ok := c.GetIfPresent(1)
+					e := ""
+					if !ok {
+						e = "miss"
+					}
+					note(ldEvent{T: "post", Op: "Refresh", K: 1, V: pv, Err: e})
+				}
 			case <-time.After(2 * time.Second):
 				// not a verdict yet: on a starved machine the reload may merely be slow; the channel is looked at again after
 				// the scheduler has finished and every gate is open (lateRefresh)
